@@ -4,8 +4,8 @@ CONSTANTS
   MaxGen = 9
   RestartRule = "stop_old"
   PortRule = "opened"
+  ShutdownRule = "close_always"
 CONSTRAINT Track
 INVARIANT OneResponder
-INVARIANT AnswersTrue
 POSTCONDITION Verdicts
 CHECK_DEADLOCK FALSE
